@@ -316,6 +316,14 @@ class _Stmt(ast.NodeTransformer):
                 out.append(ast.copy_location(ast.AugAssign(target=s.body[0].target, op=s.body[0].op, value=val), s))
                 i += 1
                 continue
+            # if C: x += <string literal>   ->   x += <string literal> if C else ""      (adding the empty string is the identity on strings)
+            if isinstance(s, ast.If) and not getattr(s, "_elif", False) and len(s.body) == 1 and not s.orelse and isinstance(s.body[0], ast.AugAssign) \
+                    and isinstance(s.body[0].op, ast.Add) and isinstance(s.body[0].target, ast.Name) \
+                    and (isinstance(s.body[0].value, ast.JoinedStr) or (isinstance(s.body[0].value, ast.Constant) and isinstance(s.body[0].value.value, str))):
+                val = ast.copy_location(ast.IfExp(test=s.test, body=s.body[0].value, orelse=ast.copy_location(ast.Constant(value=""), s)), s)
+                out.append(ast.copy_location(ast.AugAssign(target=s.body[0].target, op=ast.Add(), value=val), s))
+                i += 1
+                continue
             # if A: return A ; return B   ->   return A or B      (A a plain name: evaluating it twice is free)
             if isinstance(s, ast.If) and not s.orelse and len(s.body) == 1 and isinstance(s.body[0], ast.Return) and isinstance(s.test, ast.Name) \
                     and isinstance(s.body[0].value, ast.Name) and s.body[0].value.id == s.test.id and isinstance(nxt, ast.Return) and nxt.value is not None and i + 2 == len(stmts):
